@@ -113,7 +113,40 @@ def run_verus_unit(uid, tier='quick', keep=True):
         res['cause'] = summ['cause']
         for o in obls:
             o['status'] = 'undecided'
-    elif summ['state'] == 'failed':
+    if summ['state'] == 'failed':
+        # A failed query is re-run under two other solver seeds.  An obligation that is discharged under ANY seed is
+        # proved (the proof does not depend on the seed); only what fails under every seed is reported.  This keeps an
+        # unstable proof step from turning a harmless edit into an alarm.
+        def fn_of(d):
+            spans = verus_run.diag_lines(d)
+            prim = [s for s in spans if s[2]] or spans
+            pl = prim[0][0] if prim else 0
+            for (a, b, name) in all_ranges:
+                if a <= pl <= b:
+                    return name
+            return None
+        stable = set(fn_of(d) for d in summ['errors'])
+        res['seed_retries'] = []
+        for seed in (1, 2):
+            if not stable - {None}:
+                break
+            vr2 = verus_run.run(gpath, rlimit=rlimit, seed=seed)
+            s2 = verus_run.summarize(vr2)
+            if s2['state'] == 'ok':
+                failing2 = set()
+            elif s2['state'] == 'failed':
+                failing2 = set(fn_of(d) for d in s2['errors'])
+            else:
+                continue    # this seed decided nothing
+            res['seed_retries'].append(dict(seed=seed, failing_functions=sorted(x for x in failing2 if x)))
+            stable = set(x for x in stable if x is None or x in failing2)
+        kept = [d for d in summ['errors'] if fn_of(d) in stable]
+        if len(kept) < len(summ['errors']):
+            res['discharged_on_retry'] = sorted(set(fn_of(d) for d in summ['errors']) - stable - {None})
+            summ['errors'] = kept
+            if not kept:
+                summ['state'] = 'ok'
+    if summ['state'] == 'failed':
         res['state'] = 'failed'
         failing_fns = set()
         for d in summ['errors']:
